@@ -357,7 +357,78 @@ func genC05Sums(t *rapid.T) c05Case {
 	return c05Case{S: s, MaxDepth: 10, Element: "x", Food: "."}
 }
 
+// ---------------------------------------------------------------------------
+// both input files are malformed: which error a command reports (and that it reports one) must not vary from run to run
+
+type c05BothBadCase struct {
+	Lines   int `json:"lines"`   // lines per file
+	BadAt   int `json:"badat"`   // permille of the file where the malformed line stands (log and book alike)
+	Command int `json:"command"` // index into c05BothBadCmds
+}
+
+var c05BothBadCmds = [][]string{{"stats"}, {"reg"}, {"bal"}, {"report", "totals"}, {"summary", "2021/01/01"}, {"report", "unresolved"}}
+
+func checkC05BothBad(c c05BothBadCase, ctx *vCtx) *vFailure {
+	var lb, bb strings.Builder
+	badLine := c.Lines * c.BadAt / 1000
+	for i := 0; lb.Len() == 0 || i < c.Lines/2; i++ {
+		lb.WriteString(vFmtDay(i%20000, "") + ":\n")
+		if i == badLine/2 {
+			lb.WriteString("  broken log entry\n")
+		}
+		fmt.Fprintf(&lb, "  food%d: 1\n", i%17)
+		fmt.Fprintf(&bb, "food%d~%d:\n", i%17, i)
+		if i == badLine/2 {
+			bb.WriteString("  broken book entry\n")
+		}
+		fmt.Fprintf(&bb, "  x: %d\n", i%9+1)
+	}
+	lp, bp := vWriteFile("c05-bad-log.yaml", lb.String()), vWriteFile("c05-bad-book.yaml", bb.String())
+	cmd := c05BothBadCmds[c.Command%len(c05BothBadCmds)]
+	inv := vInvocation{Args: append([]string{"--today", vToday, "-d", bp, "-l", lp}, cmd...)}
+	ctx.NonTrivial(true)
+	ctx.Labelf("lines=%d", c.Lines)
+	var first vRun
+	K := vPick(30, 80)
+	for k := 0; k < K; k++ {
+		r := vRunApp(inv)
+		ctx.Run(1)
+		if r.Panic != "" {
+			r.Err = "panic"
+		}
+		if !r.Failed {
+			return vFailf("%v succeeds although both the log and the recipe book hold a malformed entry", cmd)
+		}
+		if k == 0 {
+			first = r
+			continue
+		}
+		if r.Err != first.Err || r.Stdout != first.Stdout {
+			return vFailSig("C05/both-files-malformed", "%v with a malformed entry in the log and one in the recipe book (%d lines each): run 0 reports %q, run %d reports %q", cmd, c.Lines, vTrunc(first.Err, 200), k, vTrunc(r.Err, 200))
+		}
+	}
+	return nil
+}
+
+func TestVerifC05BothBad(t *testing.T) {
+	var space []c05BothBadCase
+	for _, lines := range []int{6, 600, 6000, 40000} {
+		for _, at := range []int{100, 900} {
+			for ci := range c05BothBadCmds {
+				if lines >= 40000 && !vThorough() && ci > 1 {
+					continue
+				}
+				space = append(space, c05BothBadCase{Lines: lines, BadAt: at, Command: ci})
+			}
+		}
+	}
+	vEnum(t, "C05", "c05.bothbad",
+		"a log and a recipe book of 6 .. 40 000 lines that each hold one malformed entry (early or late in the file), six commands that read both, 30 (thorough 80) runs each in one process: the same failure and the same error text on every run",
+		fmt.Sprintf("%d (size, position, command) combinations", len(space)), len(space), func(i int) c05BothBadCase { return space[i] }, checkC05BothBad)
+}
+
 func init() {
+	vRegister("C05", "c05.bothbad", checkC05BothBad)
 	vRegister("C05", "c05.random", checkC05)
 	vRegister("C05", "c05.sums", checkC05)
 }
